@@ -118,7 +118,7 @@ func c02(r *rng, tier string, o *out) {
 		n = 150000
 	}
 	emit := func(line string, nt bool, tag string) {
-		impl, viol := c02run(line)
+		impl, viol := runCase("C02", line)
 		idx := o.emit(line, impl, nt)
 		o.count(tag)
 		for _, v := range viol {
